@@ -61,10 +61,10 @@ CLAIMED = {
          "queue discipline: every access to a subscriber queue, the live-fence stack and buffers, the pub/sub hub table, the follower publish queue and the hook state holds the lock guarding it; the queue index advances under the exclusive server lock; all writes to a subscriber connection go through one closure holding the write lock; a consumer that takes a queue's pending batch resets the queue to a slice with its own backing array; Hook.proc reports the queue drained only after an exhaustive scan and a send loop over the whole collected slice, and the manager waits only after that with an unchanged signal counter; a failed webhook send re-inserts the unsent tail (keys, values and ttls from the same index) before giving up; the endpoint manager's mutex is released on every reachable exit",
          "delivery under endpoint failure patterns and exactly-once at the receiver"),
  "C16": ("zone (difference-bound) abstract interpretation over go/cfg for index/slice bounds, with call-site preconditions, return summaries and verified type invariants; must-pass-through rules for pool pairing; dominance rules for reply writers",
-         "'malformed input never crashes the server or affects other connections': every index and slice on strings, argument vectors, byte buffers and arrays in internal/server and internal/glob is proved within bounds on every path (about 450 sites by the analysis, the rest by reviewed exemptions naming one construct or one server-internal unit each); messages are never given an empty argument vector; reply builders that dereference their object are only called with a definitely assigned one; every pooled Lua state is released on every exit, including error returns; handleInputCommand writes exactly one reply per path; every dispatcher recovers the deadline panic; the carry buffers of the stream readers (PipelineReader.ReadMessages, loadAOF) hold exactly the unparsed remainder before the next read and at every normal return (must-dataflow)",
+         "'malformed input never crashes the server or affects other connections': every index and slice on strings, argument vectors, byte buffers and arrays in internal/server and internal/glob is proved within bounds on every path (about 450 sites by the analysis, the rest by reviewed exemptions naming one construct or one server-internal unit each); messages are never given an empty argument vector; reply builders that dereference their object are only called with a definitely assigned one; every pooled Lua state is released on every exit, including error returns; handleInputCommand writes exactly one reply per path; every dispatcher recovers the deadline panic; the carry buffers of the stream readers (PipelineReader.ReadMessages, loadAOF) hold exactly the unparsed remainder before the next read and at every normal return (must-dataflow); state written per message and consulted afterwards in the connection loop is scoped to the connection, not to one conn.Read; hand-built RESP lines cannot contain a CR or LF from client text",
          "independence of the replies from TCP segmentation beyond the carry-buffer invariant (the parsers' own behaviour over all splits)"),
  "C17": ("JSON fragment typing: a JSON lexer over the literal pieces of every hand-assembled chain plus producer classification of every hole (resolved callees, reviewed tables); exhaustiveness of output-mode switches",
-         "'every reply is one valid JSON document': in every hand-assembled JSON chain of the server (concatenations, byte-buffer append sequences, Sprintf formats; about 190 holes) a hole between double quotes is produced by a quote-free text producer and a hole at value position by a JSON value producer, no chain ends inside a string; the repository's JSON string encoders take the json.Marshal path for every byte that needs escaping (the byte test is evaluated for all 256 values) and nothing but json.Marshal produces the escaped form; field values that Value.JSON() splices verbatim (Number, JSON) are only ever built from text validated with gjson.Valid or from valid constants; every OutputType switch has both arms; reply builders get a definitely assigned object and exactly one reply is written per path (R16 rules)",
+         "'every reply is one valid JSON document': in every hand-assembled JSON chain of the server (concatenations, byte-buffer append sequences, Sprintf formats; about 190 holes) a hole between double quotes is produced by a quote-free text producer and a hole at value position by a JSON value producer, no chain ends inside a string; the repository's JSON string encoders take the json.Marshal path for every byte that needs escaping (the byte test is evaluated for all 256 values) and nothing but json.Marshal produces the escaped form; field values that Value.JSON() splices verbatim (Number, JSON) are only ever built from text validated with gjson.Valid or from valid constants; every OutputType switch has both arms; RESP simple strings and errors assembled by hand stay on one line (every non-literal piece is a producer that cannot contain a control character); reply builders get a definitely assigned object and exactly one reply is written per path (R16 rules)",
          "agreement of the RESP and JSON encodings on the conveyed result (value-level)"),
 }
 
